@@ -66,13 +66,13 @@ def verify_functions(src, quals, tags=None, interface_factory=None, timeout=30, 
                     results.append(r)
                     continue
                 text = prelude.build_query(ob.hyps, ob.goal)
-                jobs.append((len(results), text))
+                jobs.append((len(results), text, prelude.build_query(ob.hyps, ob.goal, opaque=True)))
                 results.append(r)
     stats['gen_s'] = time.time() - t0
     t1 = time.time()
     solved = solve.solve_many(jobs, timeout=timeout, tier=tier)
     stats['solve_s'] = time.time() - t1
-    texts = dict(jobs)
+    texts = {j[0]: j[1] for j in jobs}
     for idx, res in solved.items():
         results[idx].result = res
         results[idx].text = texts[idx]
